@@ -77,9 +77,14 @@ class Session(object):
             rec.emit(e='setbuf', v=list(c['v']))
             return
         W = c.get('W', NoW)
-        if c.get('wvia', 'arg') == 'attr':
+        via = c.get('wvia', 'arg')
+        if via == 'attr':
             sp.searchwindowsize = W or None
             warg = -1
+        elif via == 'arg_over_default':
+            # the object has its own default window; the call overrides it (None = no window on this call)
+            sp.searchwindowsize = c.get('Wdefault', 2)
+            warg = W or None
         else:
             sp.searchwindowsize = None
             warg = W or None
@@ -92,7 +97,7 @@ class Session(object):
         out = None
         try:
             if fn in ('expect', 'expect_list', 'expect_loop'):
-                rec.annot = {'pats': pats}
+                rec.annot = {'pats': pats, 'W': W}
                 conc = [m.concrete(p, False) for p in pats]
                 if fn == 'expect':
                     arg = conc[0] if (len(conc) == 1 and c.get('single')) else conc
@@ -103,7 +108,7 @@ class Session(object):
                     srch = expect_mod.searcher_re(sp.compile_pattern_list(conc))
                     out = sp.expect_loop(srch, timeout=targ if targ != -1 else sp.timeout, searchwindowsize=warg)
             elif fn == 'expect_exact':
-                rec.annot = {'pats': pats}
+                rec.annot = {'pats': pats, 'W': W}
                 conc = [m.concrete(p, True) for p in pats]
                 arg = conc[0] if (len(conc) == 1 and c.get('single')) else conc
                 out = sp.expect_exact(arg, timeout=targ, searchwindowsize=warg)
@@ -212,14 +217,14 @@ def random_call(rng, alpha, allow_setbuf=True):
     ab = [c for c in alpha if c in 'abn'] or ['a', 'b']
     W = rng.choice([0, 0, 1, 2, 3, 9])
     tmo = rng.choice(['pos', 'pos', 'pos', 'default', 'zero', 'neg', 'none'])
-    wvia = rng.choice(['arg', 'attr'])
+    wvia = rng.choice(['arg', 'attr', 'arg_over_default'])
     if r < 0.30:
         pl = rng.choice(EXACT_LISTS) if rng.random() < 0.5 else random_exact_list(rng, ab)
-        return dict(fn='expect_exact', pats=pl, W=W, tmo=tmo, wvia=wvia, single=rng.random() < .5)
+        return dict(fn='expect_exact', pats=pl, W=W, tmo=tmo, wvia=wvia, Wdefault=rng.choice([1, 2, 3]), single=rng.random() < .5)
     if r < 0.62:
         pl = rng.choice(RE_LISTS) if rng.random() < 0.5 else random_re_list(rng, ab)
         return dict(fn=rng.choice(['expect', 'expect', 'expect_list', 'expect_loop']), pats=pl,
-                    W=W, tmo=tmo, wvia=wvia, single=rng.random() < .5)
+                    W=W, tmo=tmo, wvia=wvia, Wdefault=rng.choice([1, 2, 3]), single=rng.random() < .5)
     if r < 0.72:
         return dict(fn='read_n', n=rng.choice([1, 2, 3]), W=W)
     if r < 0.78:
